@@ -235,6 +235,7 @@ class Facts:
                 # several targets of one package may define the same path
                 self.fns.setdefault(k, f)
             self.adts.update(c.adts)
+        self.closure_calls_inlined = inline_direct_closure_calls(self)
         self.inlined = inline_new_helpers(self)
 
     def owner_root(self, path):
@@ -309,7 +310,7 @@ def _shift(node, off_l):
     return node
 
 
-def inline_call(caller, bi, callee):
+def inline_call(caller, bi, callee, spread=False):
     """Splices the body of `callee` (fn dict) over the call terminator of block `bi` of `caller` (fn dict, modified)."""
     call = caller["blocks"][bi]["term"]
     off_l = len(caller["locals"])
@@ -322,7 +323,18 @@ def inline_call(caller, bi, callee):
         caller.setdefault("vars", []).append(v2)
     line = call.get("line")
     blk = caller["blocks"][bi]
-    for i, a in enumerate(call["args"]):
+    args = list(call["args"])
+    if spread and len(args) == 2:
+        # closure call: (closure, (a, b, ..)) -> _1 = closure, _2 = tuple.0, _3 = tuple.1, ..
+        tup = args[1]
+        args = args[:1]
+        for j in range(callee["argc"] - 1):
+            if tup["k"] in ("copy", "move"):
+                args.append({"k": tup["k"], "p": {"l": tup["p"]["l"], "proj": tup["p"]["proj"] + [
+                    {"k": "field", "i": j, "ty": callee["locals"][j + 2]["ty"]}]}})
+            else:
+                args.append(tup)
+    for i, a in enumerate(args):
         blk["stmts"].append({"k": "assign", "dst": {"l": off_l + i + 1, "proj": []}, "rv": {"k": "use", "op": a},
                              "exp": call.get("exp", False), "line": line, "inl": True})
     blk["term"] = {"k": "goto", "t": off_b, "inlined_call": callee["path"], "line": line}
@@ -340,13 +352,14 @@ def inline_call(caller, bi, callee):
             if k == "switch":
                 tm["targets"] = [[v, tgt + off_b] for v, tgt in tm["targets"]]
                 tm["otherwise"] = tm["otherwise"] + off_b
+        nb["inl_from"] = callee["path"]
         caller["blocks"].append(nb)
 
 
 def inline_new_helpers(facts, local_crates=("rustemo", "rustemo_compiler", "rcomp")):
     if not os.path.exists(KNOWN_FNS) or os.environ.get("VERIF_NO_INLINE"):
         return {}
-    known = set(json.load(open(KNOWN_FNS)))
+    known = set(json.load(open(KNOWN_FNS))["fns"])
     def is_new(f):
         p = strip_generics(f.path)
         return (f.crate in local_crates and "{closure" not in p and f.has_body() and p not in known
@@ -402,6 +415,49 @@ def inline_new_helpers(facts, local_crates=("rustemo", "rustemo_compiler", "rcom
     for gp, callers in inlined.items():
         facts.fns[gp].d["inlined_into"] = callers
     return inlined
+
+
+def inline_direct_closure_calls(facts, local_crates=("rustemo", "rustemo_compiler", "rcomp")):
+    """`let f = |x| ..; f(a)`: a closure called by name in the function that defines it is spliced in like a helper."""
+    if os.environ.get("VERIF_NO_INLINE") or not os.path.exists(KNOWN_FNS):
+        return 0
+    # closures that today's tree already calls by name stay calls (the rules were written against them)
+    keep = set(json.load(open(KNOWN_FNS))["direct_closures"])
+    n = 0
+    for cp in sorted(facts.fns):
+        f = facts.fns[cp]
+        if not f.has_body() or f.crate not in local_crates:
+            continue
+        d = None
+        for _round in range(4):
+            blocks = (d or f.d)["blocks"]
+            sites = []
+            for i, b in enumerate(blocks):
+                tm = b["term"]
+                if tm["k"] != "call" or tm["f"]["k"] != "fn" or tm.get("t") is None:
+                    continue
+                r = tm["f"].get("resolved") or ""
+                if tm["f"].get("method") in ("call", "call_mut", "call_once") and "{closure#" in r \
+                        and r.split("::{closure#")[0] in (cp, cp.split("::{closure#")[0]):
+                    g = facts.fns.get(r)
+                    if strip_generics(r) in keep:
+                        continue
+                    if g is not None and g.has_body() and g.path != cp and len(g.blocks) <= INLINE_MAX_BLOCKS:
+                        sites.append((i, g))
+            if not sites:
+                break
+            if d is None:
+                d = copy.deepcopy(f.d)
+            for i, g in sites:
+                inline_call(d, i, g.d, spread=True)
+                n += 1
+        if d is not None:
+            nf = Fn(d, f.crate)
+            facts.fns[cp] = nf
+            for c in facts.crates:
+                if cp in c.fns and c.fns[cp] is f:
+                    c.fns[cp] = nf
+    return n
 
 
 # ---------------------------------------------------------------- callees
@@ -557,7 +613,8 @@ def walk(t):
             for v in t[1]:
                 yield from walk(v)
         else:
-            for x in t[1:]:
+            # a bare tuple of terms (an argument list) has a term, not a tag, in front
+            for x in (t if isinstance(k, tuple) else t[1:]):
                 if isinstance(x, tuple):
                     yield from walk(x)
 
@@ -778,7 +835,10 @@ def apply_proj(tb, base, proj, stack, fn):
         if k == "deref":
             pass
         elif k == "field":
-            if t == ("closure_env",) or "closure" in e:
+            if isinstance(t, tuple) and t[0] == "closure" and "closure" in e and e["i"] < len(t[2]):
+                # environment of a closure that was spliced into its caller: the captured value itself
+                t = t[2][e["i"]]
+            elif t == ("closure_env",) or "closure" in e:
                 # closure environment field -> upvar
                 idx = e["i"]
                 ups = fn.d.get("upvars") or []
@@ -1019,7 +1079,7 @@ class Sim:
                     p.events.append(("panic", name, t.get("line"), tuple(t.get("mac") or ())))
                     return self._finish(p, "panic")
                 if not (is_transparent(name) and args) and not is_log(t):
-                    p.events.append(("call", name, args, t.get("line"), b))
+                    p.events.append(("call", name, args, t.get("line"), b, val))
                 dst = t["dst"]
                 env[(dst["l"], projkey(dst["proj"]))] = val
                 if not dst["proj"]:
